@@ -84,7 +84,7 @@ func c10ConcWorker(w *W) {
 	}
 	defer func() { log.TimeNow, log.StringFromContext, log.FieldsFromContext = nil, nil, nil }()
 
-	ranges := []string{"", "INFO", "WARN~FATAL", "TRACE~DEBUG", "DEBUG", "ERROR~ERROR", "NONE~TRACE", "PANIC", "DEBUG~PANIC", "NOTICE~L998", "TRACE"}
+	ranges := []string{"", "INFO", "WARN~FATAL", "TRACE~DEBUG", "DEBUG", "ERROR~ERROR", "NONE~TRACE", "PANIC", "DEBUG~PANIC", "NOTICE~L998", "TRACE", "ERROR~INFO", "MAX~NONE"}
 	entries := []struct {
 		name  string
 		level log.Level
